@@ -25,7 +25,8 @@ CFG_MIX = {
     "templates": ("mul2", "add", "neg", "abs", "round1", "floor", "pick", "total", "dyn", "lt", "eqx", "rpow"),
     "iops": (("sub", ("lit", 1)),), "unreg": True, "setc": True,
 }
-CFG_NEST = {"values": (3,), "templates": ("mul2", "add", "abs", "round1"), "iops": (("add", ("lit", 1)),), "unreg": True}
+CFG_NEST = {"values": (3,), "templates": ("mul2", "add", "abs", "round1"), "iops": (("add", ("lit", 1)),), "unreg": True,
+            "extra": [("freeze",), ("unfreeze",)]}     # a manager can be pickled while its tree is frozen
 # builtins with ref parameters, keyword order, string arguments; load() leaves values that disagree with their definitions
 CFG_PARAM = {"values": (3,), "templates": ("mul2", "roundr", "kw2", "unit"), "unreg": True, "leaves_n": 4, "loads": 6}
 ALPHABETS = {"mix": CFG_MIX, "nest": CFG_NEST, "param": CFG_PARAM}
@@ -43,7 +44,7 @@ def alphabet_for(world, name):
         cfg["values"] = ()
         cfg["extra_sets"] = [("set", L, v) for L in world["leaves"][:2] for v in (3, 2)]
     k = cfg.pop("loads", 0)
-    extra = list(cfg.pop("extra_sets", []))
+    extra = list(cfg.pop("extra_sets", [])) + list(cfg.get("extra", []))
     if k:
         src = cfg.get("sources") or world["leaves"]
         tgt = cfg.get("leaves") or world["leaves"]
@@ -121,7 +122,21 @@ class System(ManagerSystem):
                 ns_next, ex_f = RM.step(ns_cur, f)
                 underdet = bool(ex_f.assigned is not None and ex_f.trigger and mgr.order_underdetermined(ns_next, ex_f.trigger))
             except Exception:  # noqa
-                ns_next, underdet = ns_cur, False
+                ns_next, underdet, ex_f = ns_cur, False, None
+            if ex_f is not None and ex_f.raises:
+                # e.g. the manager was pickled while frozen: both sides must reject the follow-up in the same way
+                got = []
+                for side in (c, w):
+                    try:
+                        side.apply(f)
+                        got.append(None)
+                    except Exception as e:  # noqa
+                        got.append(type(e).__name__)
+                if got[0] != got[1] or got[0] != ex_f.raises.rstrip("?"):
+                    issues.append(self.issue("violation", hist, op, f"follow-up {mgr.op_str(f)} must be rejected with {ex_f.raises}: the copy gave "
+                                                                    f"{got[0]}, the original {got[1]}"))
+                    break
+                continue
             first, second = (c, w) if i % 2 == 0 else (w, c)
             before_second = second.contents()
             try:
@@ -161,7 +176,8 @@ def plan(tier, seed):
     seeds = common.seeds_for(tier, seed, quick=(0,), thorough=(0, 1, 2))
     jobs = []
     runs = [("W-mix", "mix", 2), ("W-nest", "nest", 2), ("W-mix-attr", "nest", 2), ("W-flat", "param", 2)] if tier == "quick" else \
-        [("W-mix", "mix", 2), ("W-nest", "nest", 3), ("W-mix-attr", "mix", 2), ("W-mix-attr", "nest", 3), ("W-flat", "param", 3), ("W-nest-4", "param", 3)]
+        [("W-mix", "mix", 2), ("W-nest", "nest", 2), ("W-mix-attr", "mix", 2), ("W-mix-attr", "nest", 2), ("W-flat", "param", 3),
+         ("W-nest-4", "param", 3), ("W-nest-4", "nest", 3)]
     for hs in seeds:
         for wname, alpha, depth in runs:
             jobs.append({"name": f"bfs:{wname}:{alpha}:d{depth}:seed{hs}", "mode": "compiled", "hashseed": hs,
